@@ -20,7 +20,7 @@ func init() {
 		assume:  []string{"the call hook reports every call port (checked by the selftest: dropping it makes the replay disagree)", "generated programs stay inside the vocabulary modelled by Engine.tla"},
 		trusted: []string{"TLC", "Engine.tla as the reference semantics", "harness renderer/canonicaliser (jt)"},
 		run: func(c *checkCtx) {
-			for _, cfg := range []string{"GenCut_" + c.tier + ".cfg", "GenCut_" + c.tier + "2.cfg"} {
+			for _, cfg := range []string{"GenCut_" + c.tier + ".cfg", "GenCut_" + c.tier + "2.cfg", "GenCut_" + c.tier + "3.cfg"} {
 				r := c.mcHolds("GenCut", cfg, tlcOpts{})
 				if r.ncases == 0 {
 					infra("GenCut produced no cases")
@@ -120,7 +120,8 @@ func init() {
 		rule: "(U3) seeded random programs (2-5 predicates of arity 0-3, nested compound/list/partial-list arguments, shared and repeated variables, direct and mutual recursion, " +
 			"conjunction, nested and top-level disjunction, call/N with partial goals, \\+, findall, if-then-else, once) are run on the real interpreter with the call hook on; every recorded " +
 			"event sequence (call ports, answers as binding vectors, end) is validated line by line by TLC against EngineTrace.tla, one TLC state per event. (U2) GenProg: every program over " +
-			"a clause pool for p/1, q/1, r/2 x queries is enumerated by TLC and replayed. distinct_nontrivial = distinct programs whose trace has more than two events",
+			"a clause pool for p/1, q/1, r/2 x queries is enumerated by TLC and replayed; GenHead: every pair (argument shape in the clause, argument shape in the call) over 24 nested compound / list / " +
+			"partial-list shapes with shared and repeated variables, met by the compiled head, built by a compiled body, or bound at run time. distinct_nontrivial = distinct programs whose trace has more than two events",
 		assume:  []string{"runs whose reference execution creates a cyclic term (ISO: undefined) or exceeds the step budget are discarded and counted", "first 8 answers, then Close"},
 		trusted: []string{"TLC", "Engine.tla as the reference semantics", "harness renderer/canonicaliser (jt)", "Go-side program generator produces inputs only"},
 		run: func(c *checkCtx) {
@@ -136,6 +137,10 @@ func init() {
 				}
 				return ""
 			})
+			// the data side: every (clause argument shape, call argument shape) pair under four fixed control structures
+			h := c.mcHolds("GenHead", "GenHead.cfg", tlcOpts{})
+			cases, results = c.replay("engine", h.cases, replayOpts{})
+			c.judge("engine", cases, results, func(cs, res map[string]J) string { in, _ := res["input"].(string); return in })
 			n := 1200
 			if c.tier == "thorough" {
 				n = 20000
